@@ -211,7 +211,8 @@ func (m *Msg) TypePath(p Path) string {
 }
 
 // Kinds of single mutations.
-var Kinds = []string{"drop", "drop-all-of-type", "dup", "empty", "retype-unknown", "retype-cause", "truncate1", "truncate-half", "v6only", "inner-length", "move-last", "zero-fill"}
+var Kinds = []string{"drop", "drop-all-of-type", "dup", "empty", "retype-unknown", "retype-cause", "truncate1", "truncate-half", "v6only", "inner-length", "move-last", "zero-fill",
+	"ff-fill", "enum-next", "fqdn-bytes"}
 
 func v6Payload(t uint16, old []byte) []byte {
 	v6 := []byte{0x20, 0x01, 0x0d, 0xb8, 0, 0, 0, 0, 0, 0, 0, 0, 0, 0, 0, 1}
@@ -357,6 +358,26 @@ func (m *Msg) Apply(p Path, kind string) (*Msg, bool) {
 		for k := range n.Payload {
 			n.Payload[k] = 0
 		}
+	case "ff-fill": // every value byte at its maximum: enumerations and indices far out of range
+		if n.Grouped || len(n.Payload) == 0 {
+			return nil, false
+		}
+
+		for k := range n.Payload {
+			n.Payload[k] = 0xFF
+		}
+	case "fqdn-bytes": // Node ID of type FQDN whose label is not text (the bytes are copied verbatim into a string)
+		if n.Type != 60 {
+			return nil, false
+		}
+
+		n.Payload = []byte{0x02, 0x03, 0xFF, 0xFE, 0xFD, 0x02, 0xC3, 0x28, 0x00}
+	case "enum-next": // short IEs (enumerations, flag octets): the first value a table sized for the defined ones does not have
+		if n.Grouped || len(n.Payload) == 0 || len(n.Payload) > 2 {
+			return nil, false
+		}
+
+		n.Payload[0] = n.Payload[0]&0xF0 | 0x06
 	default:
 		return nil, false
 	}
